@@ -174,6 +174,16 @@ func c17Chars(c *core.Ctx, length string, allow, require, exclude string, entrop
 			chars := ref.Chars(s)
 			return len(chars) == L && L > 0 && r.Valid(chars)
 		}
+		if honour == "yes" && !lib.HasPw && lib.Panic == "" {
+			// on this particular (scripted, periodic) stream every permitted
+			// attempt misses a requirement: the library reports an error and
+			// so must opgen
+			c.Count("tapes_on_which_all_attempts_fail", 1)
+			if res.Status != 1 || isPw(strings.TrimSpace(res.Stdout)) {
+				c.Violation(key+" exhausted", fmt.Sprintf("the library fails on this stream (%s) but opgen exited %d with stdout %q", lib.Err, res.Status, truncText(res.Stdout)), rp)
+			}
+			continue
+		}
 		switch honour {
 		case "yes":
 			if res.Status != 0 || !single {
@@ -225,7 +235,7 @@ var listCache = map[string][]string{}
 
 func cliFiles() map[string][]string {
 	return map[string][]string{"three.txt": {"alpha", "bravo", "charlie"}, "dups.txt": {"alpha", "bravo", "alpha", "charlie", "bravo"},
-		"twin.txt": {"polish", "Polish", "alpha"}, "empty.txt": {}}
+		"twin.txt": {"polish", "Polish", "alpha"}, "empty.txt": {}, "one.txt": {"solo"}, "onedup.txt": {"solo", "solo", "solo"}}
 }
 
 // couldGenerate reports whether s can be split into n atoms (words of kept or
@@ -400,11 +410,11 @@ func c17Run(c *core.Ctx) {
 	if os.Getenv("VERIF_OPGEN") == "" || dir == "" {
 		panic("C17 shard without VERIF_OPGEN")
 	}
-	classVals := []string{"", "uppercase", "lowercase", "digits", "symbols", "ambiguous", "uppercase,lowercase", "digits, symbols", "digits,ambiguous", "uppercase,lowercase,digits,symbols,ambiguous"}
+	classVals := []string{"", "uppercase", "lowercase", "digits", "symbols", "ambiguous", "uppercase,lowercase", "digits, symbols", "digits,ambiguous", "uppercase,lowercase,digits,symbols,ambiguous", "lowercase, uppercase, digits", " symbols , digits "}
 	lengths := []string{"", "0", "1", "3", "20"}
 	npol := 3
 	if !c.Thorough() {
-		classVals = []string{"", "digits", "digits, symbols", "uppercase,lowercase", "ambiguous"}
+		classVals = []string{"", "digits", "digits, symbols", "uppercase,lowercase", "ambiguous", "lowercase, uppercase, digits"}
 		npol = 2
 	}
 	for _, L := range lengths {
@@ -426,12 +436,12 @@ func c17Run(c *core.Ctx) {
 			return
 		}
 	}
-	lists := []wordsCase{{List: ""}, {List: "words"}, {List: "syllables"}, {List: "nope"}, {File: "three.txt"}, {File: "dups.txt"}, {File: "twin.txt"}, {File: "empty.txt"}}
+	lists := []wordsCase{{List: ""}, {List: "words"}, {List: "syllables"}, {List: "nope"}, {File: "three.txt"}, {File: "dups.txt"}, {File: "twin.txt"}, {File: "empty.txt"}, {File: "one.txt"}, {File: "onedup.txt"}}
 	sizes := []string{"", "0", "1", "3"}
 	seps := []string{"", "hyphen", "space", "comma", "period", "underscore", "digit", "none"}
 	caps := []string{"", "none", "first", "all", "random", "one"}
 	if !c.Thorough() {
-		lists = []wordsCase{{List: ""}, {List: "syllables"}, {List: "nope"}, {File: "three.txt"}, {File: "dups.txt"}, {File: "twin.txt"}, {File: "empty.txt"}}
+		lists = []wordsCase{{List: ""}, {List: "syllables"}, {List: "nope"}, {File: "three.txt"}, {File: "dups.txt"}, {File: "twin.txt"}, {File: "empty.txt"}, {File: "one.txt"}, {File: "onedup.txt"}}
 		sizes = []string{"", "0", "3"}
 		seps = []string{"", "space", "digit", "none"}
 		caps = []string{"", "first", "random", "one"}
@@ -485,7 +495,7 @@ func c17Prepare(tier string) ([]string, func(), error) {
 	os.WriteFile(filepath.Join(dir, "empty.txt"), nil, 0o644)
 	bin := filepath.Join(dir, "opgen")
 	cmd := exec.Command("go", "build", "-tags", "verif", "-o", bin, "go.1password.io/spg/cmd/opgen")
-	cmd.Dir = "/verif/harness"
+	cmd.Dir = core.Root + "/harness"
 	cmd.Env = append(os.Environ(), "GOFLAGS=-mod=mod", "GOPROXY=off", "GOSUMDB=off", "GOTOOLCHAIN=local", "GOCACHE=/verif/.cache/go-build")
 	if out, err := cmd.CombinedOutput(); err != nil {
 		os.RemoveAll(dir)
@@ -498,7 +508,7 @@ func init() {
 	Register(&core.Check{
 		ID:    "C17",
 		Level: "exploration",
-		Rule: "the built opgen binary (tag verif, random bytes from $VERIF_TAPE) is run for the full product of flag values: characters: --length {unset,0,1,3,20} x --allow/--require/--exclude each over 5 (thorough 10) class lists x 2-3 tapes, plus --entropy; words: 7-8 list/file choices (built-in, unknown, files with distinct, duplicate, twin and no words) x --size {unset,0,(1,)3} x 4-8 separators x 4-6 schemes x --entropy on/off; and 8 usage errors; " +
+		Rule: "the built opgen binary (tag verif, random bytes from $VERIF_TAPE) is run for the full product of flag values: characters: --length {unset,0,1,3,20} x --allow/--require/--exclude each over 6 (thorough 12) class lists incl. lists with several blanks x 2-3 tapes, plus --entropy; words: 9-10 list/file choices (built-in, unknown, files with distinct, duplicate, twin, one and no words) x --size {unset,0,(1,)3} x 4-8 separators x 4-6 schemes x --entropy on/off; and 8 usage errors; " +
 			"oracle: stdout/exit status against the recipe the documentation says the flags mean (equal to the library on the same tape, or at least a password that recipe can generate); non-trivial = distinct stdout lines",
 		Assume:    []string{"only documented flag values are used for classes, separators and schemes", "with --entropy only recipes the library can honour are judged"},
 		Run:       c17Run,
